@@ -88,7 +88,7 @@ class Insert(ASTNode):
 
     def get_string(self, *args, **kwargs):
         if self.columns is not None:
-            cols = ', '.join([i.name for i in self.columns])
+            cols = ', '.join([Identifier(parts=[i.name]).to_string() for i in self.columns])
             columns_str = f'({cols})'
         else:
             columns_str = ''
